@@ -33,6 +33,7 @@ func main() {
 	maxPaths := flag.Int("maxpaths", 200000, "")
 	maxInstrs := flag.Int64("maxinstrs", 5000000, "")
 	loopLimit := flag.Int("looplimit", 4096, "")
+	termBound := flag.Bool("termbound", false, "report an exhausted instruction budget / loop limit as a violation of bounded termination")
 	concCap := flag.Int("conccap", 64, "maximum number of values a single concretisation may fork over")
 	mergeBudget := flag.Int64("mergebudget", 64, "instructions an arm of a branch in code under test may run and still be merged at the join")
 	oracleBudget := flag.Int64("oraclebudget", 200000, "same, for branches inside harness oracle functions (verif*/Verif*) and -mergefuncs")
@@ -143,7 +144,7 @@ func main() {
 			lf, _ := os.Create(*smtlog)
 			solver.Log = lf
 		}
-		ec := exec.Config{MaxPaths: *maxPaths, MaxInstrs: *maxInstrs, LoopLimit: *loopLimit, ConcretizeCap: *concCap, MergeBudget: *mergeBudget,
+		ec := exec.Config{MaxPaths: *maxPaths, MaxInstrs: *maxInstrs, LoopLimit: *loopLimit, TermBound: *termBound, ConcretizeCap: *concCap, MergeBudget: *mergeBudget,
 			NoMerge: *noMerge, Witness: jb.Witness, Trace: *trace, NoMergeFuncs: map[string]bool{}, Params: jb.Params, EagerBranches: *eager, OracleMergeBudget: *oracleBudget, MergeFuncs: map[string]bool{},
 			Fallback: *fallback, FallbackTimeoutMs: *fbTimeout}
 		for _, f := range strings.Split(*mergeFuncs, ",") {
